@@ -393,6 +393,18 @@ def Hits.overCharges (reportPsms : Nat) (single : Option Nat) (charges : List Na
    | some z => perCharge z
    | none => charges.foldl (fun (acc : Hits) z => acc.add (perCharge z)) {}).trim reportPsms
 
+/-! ## chimeric mode: `remove_matched_peaks` -/
+
+/-- `Scorer::remove_matched_peaks`: every peak that `select_most_intense_peak` returns for some (ion, charge) of the
+    reported PSM (`fzs` = kinds × ions × `1..max_fragment_charge(psm.charge)`) is removed — together with every peak
+    EQUAL to it (`to_remove.contains(peak)`, `Peak: PartialEq` on mass and intensity) — and
+    `total_ion_current` is recomputed as the sum of the remaining intensities, in order -/
+def removeMatched [BEq α] (E : Env α β) (sel : α → Option (Peak α)) (peaks : List (Peak α)) (fzs : List (FZ α)) :
+    List (Peak α) × α :=
+  let toRemove := fzs.filterMap fun f => sel (mzOf E f)
+  let rest := peaks.filter fun p => !toRemove.contains p
+  (rest, (rest.map (·.intensity)).foldl E.add (E.ofNat 0))
+
 /-- the fields of `Feature` this property is about -/
 structure Feat (α β : Type) where
   pep : Nat
